@@ -156,6 +156,9 @@ def cases(tier, seed):
         for tup in itertools.product(range(len(EXPR_TOKENS)), repeat=k):
             for place in ("header", "toml", "dot-license"):
                 yield {"k": "expr", "toks": list(tup), "place": place}
+    for depth in DEPTHS:
+        for place in ("header", "toml", "dot-license"):
+            yield {"k": "expr", "depth": depth, "place": place}
     for n in (240, 248, 250, 254, 255):
         for kind in ("text", "binary"):
             yield {"k": "longname", "n": n, "kind": kind}
@@ -198,6 +201,8 @@ def run_command(cmd, root):
         return run_cli(base + ["lint-file", str(root / "src/a.py"), str(root / "src/b.c")])
     if cmd == "spdx":
         return run_cli(base + ["spdx"])
+    if cmd == "spdx-concluded":
+        return run_cli(base + ["spdx", "--add-license-concluded", "--creator-person", "P", "--creator-organization", "O"])
     if cmd == "annotate":
         return run_cli(base + ["annotate", "--copyright", "Kim", "--year", "2020", str(root / "src/b.c")])
     if cmd == "annotate-terminator":
@@ -322,14 +327,21 @@ def ev_vcsmeta(c) -> R:
     return r
 
 
+DEPTHS = [40, 120, 250, 380]
 EXPR_TOKENS = ["MIT", "AND", "OR", "WITH", "(", ")", "MIT+", "Bison-exception-2.2", "+"]
 
 
 def ev_expr(c) -> R:
     """Every token sequence as the value of a licence tag / REUSE.toml key: no parser exception may escape any command."""
     r = R()
-    expr = " ".join(EXPR_TOKENS[i] for i in c["toks"])
-    for cmd in ("lint-json", "lint-file", "spdx", "annotate"):
+    if "depth" in c:
+        # well-formed, but nested: '(MIT OR (0BSD AND (MIT OR ... MIT)))'; 380 levels still fit into the 4 KiB the tool reads of a header
+        expr = "MIT"
+        for i in range(c["depth"]):
+            expr = f"({'MIT' if i % 4 < 2 else '0BSD'} {'AND' if i % 2 else 'OR'} {expr})"
+    else:
+        expr = " ".join(EXPR_TOKENS[i] for i in c["toks"])
+    for cmd in ("lint-json", "lint-file", "spdx", "annotate") + (("lint", "spdx-concluded", "download-all") if "depth" in c else ()):
         root = fresh_dir("c16")
         rec = dict(BASE)
         if c["place"] == "header":
@@ -341,7 +353,7 @@ def ev_expr(c) -> R:
                                  "SPDX-License-Identifier = %s\n" % json.dumps(expr))
         materialise(root, rec)
         out = run_command(cmd, root)
-        judge(r, out, cmd, f"licence expression {expr!r} in {c['place']}", f"expr|{c['place']}|{cmd}", config_path="REUSE.toml" if c["place"] == "toml" else None)
+        judge(r, out, cmd, f"licence expression {expr[:60]!r} in {c['place']}", f"expr|{c['place']}|{cmd}" + ("|nested" if "depth" in c else ""), config_path="REUSE.toml" if c["place"] == "toml" else None)
     r.evals = 4
     r.outcome = "expr"
     r.tags.append("expr")
